@@ -106,6 +106,7 @@ def run(c):
     okb, _ = c.ocaml_build(MODEL, DRIVER, BIN) if pr["ok"] or have_model else (False, "")
     okg, _ = c.go_build()
     cases = os.path.join(c.work, "c14.cases")
+    first_mismatch = None
     cov = {"rule": RULE, "evaluations": 0, "distinct_nontrivial": 0, "samples": [], "disagreements_checked": 0}
     if okg and okb:
         rc, out = c.harness(["c14", cases], timeout=3000)
@@ -127,9 +128,12 @@ def run(c):
                              "case": line, "how_to_replay": "./check C14 --replay <this file>"})
             if mism and not viol:
                 c.broken.append("correspondence model<->events: %d disagreements, first: %s" % (len(mism), mism[0][:1500]))
+                first_mismatch = mism[0]
     if c.broken and not c.violations:
-        c.violation({"kind": "proof or correspondence no longer checks; no input violating C14 was found",
-                     "broken": c.broken}, no_input=True)
+        obj = {"kind": "proof or correspondence no longer checks; no input violating C14 was found", "broken": c.broken}
+        if first_mismatch:
+            obj["case"] = first_mismatch   # lets --replay reproduce the disagreement
+        c.violation(obj, no_input=True)
     if c.tier == "thorough" and pr["ok"]:
         okc, outc = c.coqchk(PROPS)
         cov["coqchk"] = {"ok": okc, "tail": outc[-1200:]}
